@@ -8,10 +8,11 @@ manifest, what was run to confirm it, and what each check reported when run agai
 (tools/try_mutant.sh on a scratch copy of /repo; /repo itself is never touched)."""
 import json, os, re, shutil, subprocess, sys
 
-SRC = "/tmp/seed_out"
+SRC = os.environ.get("SEED_SRC", "/tmp/seed_out")
+PREFIX = os.environ.get("SEED_PREFIX", "")  # e.g. "r2" for second-round changes
 DST = "/verif/seeded"
 # checks to run besides the property's own one (the change also breaks these properties)
-ALSO = {"C01/m3": ["C04"], "C05/m2": ["C06"], "C02/m2": ["C04"], "C02/m3": ["C04"], "C14/m3": ["C02"], "C10/m1": ["C08"], "C16/m3": ["C15"]}
+ALSO = {"C01/m3": ["C04"], "C05/m2": ["C06"], "C02/m2": ["C04"], "C02/m3": ["C04"], "C14/m3": ["C02"], "C10/m1": ["C08"], "C16/m3": ["C15"], "C02/r2m2": ["C18"], "C01/r2m3": ["C04"]}
 
 def try_check(patch, cid):
     p = subprocess.run(["/verif/tools/try_mutant.sh", patch, cid], capture_output=True, text=True)
@@ -36,7 +37,7 @@ for cid in ids:
         if conf.get("verdict") != "confirmed":
             print(cid, m, "skipped:", conf.get("verdict"))
             continue
-        out = os.path.join(DST, cid, m)
+        out = os.path.join(DST, cid, PREFIX + m)
         os.makedirs(out, exist_ok=True)
         metaf = os.path.join(out, "meta.json")
         if os.path.exists(metaf) and "checks_run_against_it" in json.load(open(metaf)) and "--force" not in sys.argv:
@@ -47,14 +48,14 @@ for cid in ids:
                 shutil.copy(os.path.join(md, f), os.path.join(out, f))
         orig = json.load(open(os.path.join(md, "meta.json")))
         patch = os.path.join(out, "patch_ported.diff" if os.path.exists(os.path.join(out, "patch_ported.diff")) else "patch.diff")
-        runs = [try_check(patch, c) for c in [cid] + ALSO.get(cid + "/" + m, [])]
+        runs = [try_check(patch, c) for c in [cid] + ALSO.get(cid + "/" + PREFIX + m, [])]
         meta = {
             "property": cid,
             "summary": orig.get("summary"),
             "needs_to_manifest": orig.get("needs"),
             "files_changed": orig.get("files_changed"),
             "demo": {"place_in": orig.get("demo_dir"), "command": orig.get("demo_cmd")},
-            "apply": "git -C /repo apply /verif/seeded/%s/%s/%s   (undo: git -C /repo checkout -- .)" % (cid, m, os.path.basename(patch)),
+            "apply": "git -C /repo apply /verif/seeded/%s/%s/%s   (undo: git -C /repo checkout -- .)" % (cid, PREFIX + m, os.path.basename(patch)),
             "confirmed_in_scratch_worktree": {k: conf.get(k) for k in ("base", "demo_without_change", "build_with_change", "demo_with_change", "suite_with_change", "suite_seconds", "verdict")},
             "checks_run_against_it": runs,
             "caught_by": [r["check"] for r in runs if r.get("caught")],
